@@ -27,7 +27,7 @@ import random
 ID = "C21"
 LEVEL = "exploration"
 IN_PROCESS = False
-CHUNK_TIMEOUT = 900
+CHUNK_TIMEOUT = 2400
 RULE = (
     "(a') >= 20000 random kill maps (0-12 assertion keys x 0-20 mutants: empty, all-empty, duplicate, nested, disjoint, greedy-trap "
     "and uniform shapes) through the real _select_minimal_assertions, oracle = set arithmetic (subset of keys, union of kills == "
